@@ -35,7 +35,10 @@ META = {
                "widths 1..64 other than 16/24 with fully symbolic data",
                "thorough: device types 0..65535; maps with two symbolic entries; all 2^24 frames under a map",
                "before every decode a 24-bit frame and an ENABLE DEVICE TYPE frame with a symbolic type are "
-               "decoded; the decode under test is compared with a second decode made right after it"],
+               "decoded; the decode under test is compared with a second decode made right after it",
+               "the untouched DeviceInstanceTypeMapper with 0..3 entries at concrete keys, frame fields limited to "
+               "known / unknown devices and instances", "a 16-bit frame (12 representatives) decoded before the "
+               "24-bit frame of the same number"],
     "stubs": ["isinstance/int/bytes shims", "SymDict around the opcode/instance-type registries",
               "SymKeyDict as DeviceInstanceTypeMapper._mapping in symbolic mode (plain dict in the "
               "concrete cross-validation run)", "text tokens for formatted symbolic ints"],
